@@ -434,6 +434,122 @@ Definition lc_state_fixed (lc : Z -> res lightblock) (cp : Z -> option bytes) (i
   | _ => RFail
   end).
 
+(* ------------------------------------------------------------------ state/store.go, node.go *)
+
+(* What node.startStateSync does with the (state, commit) SyncAny returned:
+     stateStore.Bootstrap(state); blockStore.SaveSeenCommit(state.LastBlockHeight, commit)
+   and what the node reads back later: LoadValidators, LoadConsensusParams, Load, LoadSeenCommit;
+   state.Store.Save of the successor states (what ApplyBlock does after every block).
+   Validator sets are identified by their hashes (proposer priorities are not modelled: the
+   IncrementProposerPriority replay of LoadValidators is C18's), consensus params by
+   HashConsensusParams.  A record holds the set / params in full or only LastHeightChanged
+   (a pointer).  Sets that come out of a light block are never empty (ValidatorSet.ValidateBasic),
+   so Bootstrap's IsNilOrEmpty test of LastValidators is false here. *)
+Record vinfo := mkVI { vi_lhc : Z; vi_set : option bytes }.
+Record pinfo := mkPI { pi_lhc : Z; pi_params : option bytes }.
+Record sstore := mkStore {
+  ss_vals : Z -> option vinfo;      (* validatorsKey:<height> *)
+  ss_params : Z -> option pinfo;    (* consensusParamsKey:<height> *)
+  ss_state : option sstate;         (* stateKey *)
+  ss_seen : Z -> option commit }.   (* block store: SC:<height> *)
+
+Definition store0 : sstore := mkStore (fun _ => None) (fun _ => None) None (fun _ => None).
+
+Definition obind {A B} (o : option A) (f : A -> option B) : option B :=
+  match o with Some a => f a | None => None end.
+
+(* saveValidatorsInfo *)
+Definition save_vinfo (s : sstore) (height lhc : Z) (set : bytes) : option sstore :=
+  if height <? lhc then None
+  else Some (mkStore
+    (upd (ss_vals s) height
+         (Some (mkVI lhc (if (height =? lhc) || (height mod valset_checkpoint_interval =? 0)
+                          then Some set else None))))
+    (ss_params s) (ss_state s) (ss_seen s)).
+
+(* saveConsensusParamsInfo *)
+Definition save_pinfo (s : sstore) (next change : Z) (params : bytes) : sstore :=
+  mkStore (ss_vals s)
+          (upd (ss_params s) next (Some (mkPI change (if change =? next then Some params else None))))
+          (ss_state s) (ss_seen s).
+
+Definition set_sstate (s : sstore) (st : sstate) : sstore :=
+  mkStore (ss_vals s) (ss_params s) (Some st) (ss_seen s).
+
+(* dbStore.Bootstrap *)
+Definition store_bootstrap (s : sstore) (st : sstate) : option sstore :=
+  let height := if st_last_height st + 1 =? 1 then st_initial st else st_last_height st + 1 in
+  obind (if 1 <? height then save_vinfo s (height - 1) (height - 1) (st_lastvals st) else Some s) (fun s1 =>
+  obind (save_vinfo s1 height height (st_vals st)) (fun s2 =>
+  obind (save_vinfo s2 (height + 1) (height + 1) (st_nextvals st)) (fun s3 =>
+  Some (set_sstate (save_pinfo s3 height (st_lhcpc st) (st_params st)) st)))).
+
+(* dbStore.Save *)
+Definition store_save (s : sstore) (st : sstate) : option sstore :=
+  let first := st_last_height st + 1 =? 1 in
+  let next := if first then st_initial st else st_last_height st + 1 in
+  obind (if first then save_vinfo s next next (st_vals st) else Some s) (fun s1 =>
+  obind (save_vinfo s1 (next + 1) (st_lhvc st) (st_nextvals st)) (fun s2 =>
+  Some (set_sstate (save_pinfo s2 next (st_lhcpc st) (st_params st)) st))).
+
+(* BlockStore.SaveSeenCommit *)
+Definition save_seen (s : sstore) (height : Z) (cm : commit) : sstore :=
+  mkStore (ss_vals s) (ss_params s) (ss_state s) (upd (ss_seen s) height (Some cm)).
+
+(* the two statements of startStateSync after a successful Sync *)
+Definition node_bootstrap (s : sstore) (st : sstate) (cm : commit) : option sstore :=
+  obind (store_bootstrap s st) (fun s' => Some (save_seen s' (st_last_height st) cm)).
+
+(* LoadValidators: None = error *)
+Definition load_validators (s : sstore) (height : Z) : option bytes :=
+  match ss_vals s height with
+  | None => None
+  | Some vi =>
+    match vi_set vi with
+    | Some set => Some set
+    | None =>
+      let stored := Z.max (height - height mod valset_checkpoint_interval) (vi_lhc vi) in
+      match ss_vals s stored with
+      | Some vi2 => vi_set vi2
+      | None => None
+      end
+    end
+  end.
+
+(* LoadConsensusParams: None = error, Some None = the empty params without an error (a pointer
+   record whose target holds no params) *)
+Definition load_params (s : sstore) (height : Z) : option (option bytes) :=
+  match ss_params s height with
+  | None => None
+  | Some pi =>
+    match pi_params pi with
+    | Some p => Some (Some p)
+    | None => match ss_params s (pi_lhc pi) with
+              | Some pi2 => Some (pi_params pi2)
+              | None => None
+              end
+    end
+  end.
+
+(* what a node can read back from its stores *)
+Record lookups := mkLk {
+  lk_vals : Z -> option bytes;             (* LoadValidators *)
+  lk_params : Z -> option (option bytes);  (* LoadConsensusParams *)
+  lk_state : option sstate;                (* Load *)
+  lk_seen : Z -> option commit }.          (* LoadSeenCommit *)
+
+Definition store_lookups (s : sstore) : lookups :=
+  mkLk (load_validators s) (load_params s) (ss_state s) (ss_seen s).
+
+(* the state saved last: the last of [succs], [st] if there is none *)
+Definition last_of (st : sstate) (succs : list sstate) : sstate := fold_left (fun _ t => t) succs st.
+
+Fixpoint save_all (s : sstore) (succs : list sstate) : option sstore :=
+  match succs with
+  | [] => Some s
+  | t :: r => obind (store_save s t) (fun s' => save_all s' r)
+  end.
+
 (* ------------------------------------------------------------------ syncer.go *)
 
 (* calls the application receives *)
